@@ -117,6 +117,50 @@ func (P *Program) publishedOne(pb *Published) []*Obligation {
 	}
 	out = append(out, staticOb("static/published-writes:"+name, pos,
 		fmt.Sprintf("the %d functions that read %s back write only its mutable fields %v", nW, name, pb.Mutable), okW, whyW))
+	// the publishing functions: once the pointer is stored in S.f the object is visible, so what
+	// follows the store writes only mutable fields through it
+	okB, whyB, nB := true, "", 0
+	var allFns []*ssa.Function
+	var addFn func(f *ssa.Function)
+	addFn = func(f *ssa.Function) {
+		allFns = append(allFns, f)
+		for _, c := range f.AnonFuncs {
+			addFn(c)
+		}
+	}
+	for _, fn := range fns {
+		if fn.Parent() == nil {
+			addFn(fn)
+		}
+	}
+	for _, fn := range allFns {
+		for _, b := range fn.Blocks {
+			for _, in := range b.Instrs {
+				st, ok := in.(*ssa.Store)
+				if !ok || !a.isPubField(st.Addr) {
+					continue
+				}
+				if c, isC := st.Val.(*ssa.Const); isC && c.IsNil() {
+					continue
+				}
+				nB++
+				acc := newPubAccess()
+				a.afterStore(fn, st, acc)
+				for f, p := range acc.writes {
+					if !mutable[f] {
+						okB = false
+						whyB += fmt.Sprintf("%s writes frozen field %s at %s after storing the object in %s at %s; ", relName(fn), f, P.pos(p), name, P.pos(st.Pos()))
+					}
+				}
+				for _, e := range acc.escapes {
+					okB = false
+					whyB += fmt.Sprintf("%s after the store at %s: %s; ", relName(fn), P.pos(st.Pos()), e)
+				}
+			}
+		}
+	}
+	out = append(out, staticOb("static/published-before:"+name, pos,
+		fmt.Sprintf("the %d stores into %s come after every write of a frozen field by the storing function (the object is complete when it becomes visible)", nB, name), okB, whyB))
 	for _, r := range roots {
 		if r.fn.Signature.Recv() == nil || !token.IsExported(r.fn.Name()) {
 			continue
@@ -396,4 +440,104 @@ func (a *pubAnalysis) call(fn *ssa.Function, ci ssa.CallInstruction, ptr, cell m
 		return
 	}
 	a.analyse(callee, nil, tainted, free, acc, stack)
+}
+
+// afterStore collects the writes made through aliases of the pointer stored by st (a store
+// into the published field) by the instructions of fn that can execute after st.
+func (a *pubAnalysis) afterStore(fn *ssa.Function, st *ssa.Store, acc *pubAccess) {
+	ptr := map[ssa.Value]bool{st.Val: true}
+	cell := map[ssa.Value]bool{}
+	if u, ok := st.Val.(*ssa.UnOp); ok && u.Op == token.MUL {
+		cell[u.X] = true
+	}
+	for changed := true; changed; {
+		changed = false
+		for _, b := range fn.Blocks {
+			for _, in := range b.Instrs {
+				switch x := in.(type) {
+				case *ssa.Store:
+					if ptr[x.Val] && !a.isPubField(x.Addr) && !cell[x.Addr] {
+						cell[x.Addr] = true
+						changed = true
+					}
+					if cell[x.Addr] && !ptr[x.Val] {
+						// the variable the pointer was read from is assigned elsewhere: its other
+						// values alias the object on some path
+						ptr[x.Val] = true
+						changed = true
+					}
+				case *ssa.UnOp:
+					if x.Op == token.MUL && cell[x.X] && !ptr[x] {
+						ptr[x] = true
+						changed = true
+					}
+				case *ssa.ChangeType:
+					if ptr[x.X] && !ptr[x] {
+						ptr[x] = true
+						changed = true
+					}
+				}
+			}
+		}
+	}
+	// instructions that can run after the store
+	after := map[ssa.Instruction]bool{}
+	seen := map[*ssa.BasicBlock]bool{}
+	var work []*ssa.BasicBlock
+	blk := st.Block()
+	past := false
+	for _, in := range blk.Instrs {
+		if past {
+			after[in] = true
+		}
+		if in == ssa.Instruction(st) {
+			past = true
+		}
+	}
+	work = append(work, blk.Succs...)
+	for len(work) > 0 {
+		b := work[0]
+		work = work[1:]
+		if seen[b] {
+			continue
+		}
+		seen[b] = true
+		for _, in := range b.Instrs {
+			after[in] = true
+		}
+		work = append(work, b.Succs...)
+	}
+	isElemPtr := func(v ssa.Value) bool {
+		if a.elem == nil {
+			return false
+		}
+		n, ok := types.Unalias(derefType(v.Type())).(*types.Named)
+		return ok && n.Obj() == a.elem.Obj()
+	}
+	clos := map[ssa.Value]*ssa.MakeClosure{}
+	for _, b := range fn.Blocks {
+		for _, in := range b.Instrs {
+			if !after[in] {
+				continue
+			}
+			switch x := in.(type) {
+			case *ssa.Store:
+				if fa, ok := x.Addr.(*ssa.FieldAddr); ok && ptr[fa.X] && isElemPtr(fa.X) {
+					stt := derefType(fa.X.Type()).Underlying().(*types.Struct)
+					f := stt.Field(fa.Field).Name()
+					if _, dup := acc.writes[f]; !dup {
+						acc.writes[f] = x.Pos()
+					}
+				} else if ptr[x.Addr] && isElemPtr(x.Addr) {
+					if _, dup := acc.writes["*"]; !dup {
+						acc.writes["*"] = x.Pos()
+					}
+				}
+			case ssa.CallInstruction:
+				a.call(fn, x, ptr, map[ssa.Value]bool{}, clos, acc, map[pubKey]bool{})
+			}
+		}
+	}
+	// reads made by callees are of no interest here
+	acc.reads = map[string]token.Pos{}
 }
